@@ -42,6 +42,8 @@ type Gen struct {
 	// distribution counters, reported in the evidence
 	stats map[string]int
 	cliFocus string // C15: the <id> the next `info` should look at
+	partHeavy    bool // this history is about partitions: half of its objects are partitions of all four types
+	bigFirst     bool // this history starts with an object of over 1 MiB followed by small ones, and deletes it with zeroing
 	afterCompact bool // the previous op was a compacting delete without zeroing (storage shrank, old bytes may linger)
 }
 
@@ -142,6 +144,9 @@ func (g *Gen) validDI(allowPrimary bool) DI {
 	dt := pick(r, dataTypes)
 	if r.Chance(1, 3) {
 		dt = 0x4007
+	}
+	if g.partHeavy && r.Chance(1, 2) {
+		dt = 0x4004
 	}
 	di := DI{DT: dt, Fail: -1, Data: g.size()}
 	g.count(fmt.Sprintf("dt:%x", dt))
@@ -290,6 +295,10 @@ func (g *Gen) topt() TOpt {
 func (g *Gen) createOp() *Op {
 	r := g.r
 	op := &Op{Kind: "create", Backend: pick(r, g.p.Backends)}
+	g.partHeavy = r.Chance(1, 5)
+	if g.partHeavy {
+		g.count("history:partition-heavy")
+	}
 	cap := -1
 	if !r.Chance(1, 10) {
 		cap = r.Intn(g.p.MaxCap + 1)
@@ -359,11 +368,36 @@ func (g *Gen) createOp() *Op {
 		n = cap + 1
 		g.count("reject:create-overfull")
 	}
+	g.bigFirst = false
+	if g.p.MaxCap >= 3 && !crowded && n <= cap && r.Chance(1, 30) {
+		// an object of more than one 1 MiB block (and not a whole number of them) with small
+		// objects stored after it; the history then deletes it with zeroing
+		g.bigFirst = true
+		if cap < 3 {
+			cap = 3 + r.Intn(3)
+			for k := range op.COpts {
+				if op.COpts[k].Kind == "cap" {
+					op.COpts[k].I = int64(cap)
+				}
+			}
+		}
+		n = 2 + r.Intn(2)
+		g.count("history:big-object-first")
+	}
 	if n > 0 {
 		var dis []DI
 		havePrim := false
 		for i := 0; i < n; i++ {
 			di := g.validDI(!havePrim)
+			if g.bigFirst {
+				di = DI{DT: 0x4007, Fail: -1, Data: DataSpec{Lit: r.Bytes(1 + r.Intn(40))}}
+				if i == 0 {
+					di.Data = DataSpec{Gen: true, Len: 1<<20 + pick(r, []int{1, 4097, 300000}), Seed: r.U64()}
+				}
+				if r.Chance(1, 2) {
+					di.Opts = append(di.Opts, DIOpt{Kind: "group", N: pick(r, groupChoices)})
+				}
+			}
 			if crowded && i >= 4 {
 				// keep crowded images small: tiny unaligned objects after the first few
 				di = DI{DT: 0x4007, Fail: -1, Data: DataSpec{Lit: r.Bytes(1 + r.Intn(3))}}
@@ -511,7 +545,19 @@ func (g *Gen) nextOp(f *sif.FileImage) *Op {
 			return &Op{Kind: "add", T: g.topt(), DI: di, Valid: true}
 		}
 	}
+	if g.bigFirst && r.Chance(1, 2) {
+		g.bigFirst = false
+		for _, id := range in.ids {
+			if id == 1 {
+				g.count("op:zeroing-delete-of-big-object")
+				return &Op{Kind: "del", T: g.topt(), Sel: Sel{Kind: "id", N: 1}, Zero: true, Compact: r.Chance(1, 3)}
+			}
+		}
+	}
 	x := r.Intn(100)
+	if g.partHeavy && len(in.parts) > 0 && r.Chance(1, 4) {
+		x = 64 // set-primary
+	}
 	switch {
 	case x < 42:
 		op := &Op{Kind: "add", T: g.topt()}
@@ -567,7 +613,8 @@ func (g *Gen) nextOp(f *sif.FileImage) *Op {
 		return op
 	case x < 74:
 		op := &Op{Kind: "setprim", T: g.topt()}
-		if len(in.parts) > 0 && !reject {
+		if len(in.parts) > 0 && (!reject || r.Chance(1, 2)) {
+			// any partition: system ones are promoted, data/overlay ones refused, the primary one is a no-op
 			op.ID = pick(r, in.parts)
 		} else {
 			op.ID = g.someID(in)
